@@ -176,12 +176,41 @@ def lower_cum_extrema(ctx: Any, eqn: Any, *, mode: str) -> None:
     _stamp_meta(ctx, x_3d, ref=x_work, shape=pooled_shape)
 
     pool_input = x_3d
-    if mode == "min":
-        pool_input = ctx.builder.Neg(
+    # MaxPool is defined for floating tensors only.  Integers take an exact detour:
+    # up to 16 bits through float32, up to 32 bits through float64 (double-precision
+    # exports only, a single-precision model must not contain float64 tensors).
+    pool_cast_back: ir.DataType | None = None
+    if dtype_enum is not None and not dtype_enum.is_floating_point():
+        small = (
+            ir.DataType.INT8,
+            ir.DataType.UINT8,
+            ir.DataType.INT16,
+            ir.DataType.UINT16,
+        )
+        double_ok = bool(getattr(ctx.builder, "enable_double_precision", False))
+        if dtype_enum in small:
+            pool_dtype = ir.DataType.FLOAT
+        elif dtype_enum in (ir.DataType.INT32, ir.DataType.UINT32) and double_ok:
+            pool_dtype = ir.DataType.DOUBLE
+        else:
+            raise NotImplementedError(
+                f"lax.cum{mode} of {dtype_enum} operands is not supported"
+                + ("" if double_ok else " without enable_double_precision")
+            )
+        pool_cast_back = dtype_enum
+        pool_input = ctx.builder.Cast(
             x_3d,
+            to=int(pool_dtype.value),
+            _outputs=[ctx.fresh_name(f"cum{mode}_as_float")],
+        )
+        _stamp_meta(ctx, pool_input, dtype=pool_dtype, shape=pooled_shape)
+    if mode == "min":
+        neg_src = pool_input
+        pool_input = ctx.builder.Neg(
+            neg_src,
             _outputs=[ctx.fresh_name("cummin_neg_in")],
         )
-        _stamp_meta(ctx, pool_input, ref=x_3d, shape=pooled_shape)
+        _stamp_meta(ctx, pool_input, ref=neg_src, shape=pooled_shape)
 
     pads = (0, axis_extent_i - 1) if reverse else (axis_extent_i - 1, 0)
     pooled = ctx.builder.MaxPool(
@@ -200,6 +229,14 @@ def lower_cum_extrema(ctx: Any, eqn: Any, *, mode: str) -> None:
             _outputs=[ctx.fresh_name("cummin_neg_out")],
         )
         _stamp_meta(ctx, restored_3d, ref=pooled, shape=pooled_shape)
+
+    if pool_cast_back is not None:
+        restored_3d = ctx.builder.Cast(
+            restored_3d,
+            to=int(pool_cast_back.value),
+            _outputs=[ctx.fresh_name(f"cum{mode}_from_float")],
+        )
+        _stamp_meta(ctx, restored_3d, dtype=pool_cast_back, shape=pooled_shape)
 
     x_work_out = ctx.builder.Reshape(
         restored_3d,
